@@ -116,7 +116,9 @@ impl RowIdSequence {
     }
 
     pub fn is_empty(&self) -> bool {
-        self.0.is_empty()
+        // A sequence may hold empty segments (e.g. `Range(0..0)` built from an empty slice
+        // or left behind by `delete`).
+        self.0.iter().all(|segment| segment.is_empty())
     }
 
     /// Combines this row id sequence with another row id sequence.
